@@ -63,6 +63,23 @@ CHECKS.update({
     ),
 })
 
+CHECKS.update({
+    "C14": dict(
+        level="exploration", engine="bex",
+        text="A pool of 211 values (thorough: 389: ints up to +-(2^53-1), floats with +-0, +-Inf, NaN and neighbours of ints, strings, bools, closures, "
+             "nested lists eager and lazy in 5 representations, maps in 5 representations, plus every list of length <= 2 (3) and every map over two keys "
+             "from a small atom set) is enumerated exhaustively: all ordered pairs x the 7 operators = != < > <= >= ~, each generated once as 'a OP b' and "
+             "called on freshly built argument values, are checked against a reference relation written from the property text and against every law of the "
+             "property as relations between table entries; all triples of the numeric and string sub-pools for transitivity; min, max, list.min/max, "
+             "order, orderRev and switch on all pairs and on all triples of the hand-picked values must agree with the operator tables.",
+        note="Trusted: the ~260-line reference relation (numbers via math/big). Categories the property text leaves open (closure = closure, < on bools, "
+             "string~string, string~map, list~list, map = map where key order decides error-vs-false, NaN in min/max/order) are excluded and counted "
+             "under unspecified_excluded. An error that is a recovered Go panic satisfies 'fails with an error' (C05 owns catchability).",
+        technique="bounded-exhaustive operator outcome tables over a value pool checked against algebraic laws and a reference relation",
+        design_ref="DESIGN.md §5 C14",
+    ),
+})
+
 NOT_YET = "check not built yet in this session (planned, see DESIGN.md §9); not claimed until its machinery exists"
 
 def main():
